@@ -122,8 +122,11 @@ pub enum Member {
     Absent,
     Null,
     Time { t: i128, canonical: bool },
-    /// a string shaped like a timestamp that the oracle's strict parser refuses (month 13, …)
+    /// a well-formed RFC 3339 timestamp except that date and time are separated by some other single
+    /// character (RFC 3339 5.6 NOTE lets applications be liberal here; the `time` crate is): latitude
     Dubious,
+    /// a string shaped like a timestamp that is not valid RFC 3339 (month 13, missing offset, …)
+    Malformed,
     NonTime(Value),
 }
 
@@ -162,9 +165,35 @@ pub fn opt_equiv(a: &Option<String>, b: &Option<String>) -> bool {
     a.as_deref().unwrap_or("") == b.as_deref().unwrap_or("")
 }
 
+/// Same number in another spelling (the `1` vs `1.0` latitude): exact mathematical equality, so that
+/// two different integers beyond 2^53 are NOT considered the same.
+fn num_same(x: &serde_json::Number, y: &serde_json::Number) -> bool {
+    if x == y {
+        return true;
+    }
+    let int_of = |n: &serde_json::Number| -> Option<i128> {
+        if let Some(i) = n.as_i64() {
+            Some(i as i128)
+        } else if let Some(u) = n.as_u64() {
+            Some(u as i128)
+        } else {
+            let f = n.as_f64()?;
+            if f.fract() == 0.0 && f.abs() <= 9_007_199_254_740_992.0 {
+                Some(f as i128)
+            } else {
+                None
+            }
+        }
+    };
+    match (int_of(x), int_of(y)) {
+        (Some(a), Some(b)) => a == b,
+        _ => false,
+    }
+}
+
 pub fn json_eq_lenient(a: &Value, b: &Value) -> bool {
     match (a, b) {
-        (Value::Number(x), Value::Number(y)) => x == y || x.as_f64() == y.as_f64(),
+        (Value::Number(x), Value::Number(y)) => num_same(x, y),
         (Value::Array(x), Value::Array(y)) => x.len() == y.len() && x.iter().zip(y).all(|(p, q)| json_eq_lenient(p, q)),
         (Value::Object(x), Value::Object(y)) => {
             x.len() == y.len() && x.iter().all(|(k, v)| y.get(k).map_or(false, |w| json_eq_lenient(v, w)))
@@ -175,13 +204,17 @@ pub fn json_eq_lenient(a: &Value, b: &Value) -> bool {
 
 fn looks_like_timestamp(s: &str) -> bool {
     let b = s.as_bytes();
-    b.len() >= 19
-        && b[..4].iter().all(|c| c.is_ascii_digit())
-        && b[4] == b'-'
-        && b[7] == b'-'
-        && (b[10] == b'T' || b[10] == b't' || b[10] == b' ')
-        && b[13] == b':'
-        && b[16] == b':'
+    b.len() >= 16 && b[..4].iter().all(|c| c.is_ascii_digit()) && (b[4] == b'-' || b[4].is_ascii_digit())
+}
+
+/// the same string with the date/time separator normalised to 'T' parses as RFC 3339
+fn only_separator_is_odd(s: &str) -> bool {
+    let b = s.as_bytes();
+    if b.len() < 20 || !s.is_char_boundary(10) || !s.is_char_boundary(11) {
+        return false;
+    }
+    let t = format!("{}T{}", &s[..10], &s[11..]);
+    civil::parse(&t).is_some()
 }
 
 fn is_canonical_ts(s: &str) -> bool {
@@ -210,8 +243,10 @@ pub fn member_of_value(v: Option<&Value>) -> Member {
         Some(Value::String(s)) => match civil::parse(s) {
             Some(t) => Member::Time { t, canonical: is_canonical_ts(s) },
             None => {
-                if looks_like_timestamp(s) {
+                if only_separator_is_odd(s) {
                     Member::Dubious
+                } else if looks_like_timestamp(s) {
+                    Member::Malformed
                 } else {
                     Member::NonTime(Value::String(s.clone()))
                 }
@@ -391,11 +426,11 @@ impl<'r> Ctx<'r> {
     }
 }
 
-fn expectation_state(expect: &[ClaimSpec], json: &Value) -> (Vec<String>, Vec<String>, bool) {
-    // returns (missing keys, differing keys, numeric latitude involved)
+fn expectation_state(expect: &[ClaimSpec], json: &Value) -> (Vec<String>, Vec<String>, Vec<String>) {
+    // returns (missing keys, differing keys, keys equal only up to number form: the 1 vs 1.0 latitude)
     let mut missing = vec![];
     let mut differing = vec![];
-    let mut lat = false;
+    let mut lat = vec![];
     // later registrations under the same key replace earlier ones
     let mut cur: BTreeMap<&str, Value> = BTreeMap::new();
     for c in expect {
@@ -408,7 +443,7 @@ fn expectation_state(expect: &[ClaimSpec], json: &Value) -> (Vec<String>, Vec<St
             Some(g) => {
                 if g == &v {
                 } else if json_eq_lenient(g, &v) {
-                    lat = true;
+                    lat.push(k.to_string());
                 } else {
                     differing.push(k.to_string());
                 }
@@ -432,6 +467,7 @@ fn time_tri_exp(m: &Member, rmin: i128, rmax: i128) -> Tri {
             }
         }
         Member::Dubious => Tri::Either,
+        Member::Malformed => Tri::MustReject,
         Member::NonTime(_) => Tri::MustReject,
     }
 }
@@ -450,6 +486,7 @@ fn time_tri_nbf(m: &Member, rmin: i128, rmax: i128) -> Tri {
             }
         }
         Member::Dubious => Tri::Either,
+        Member::Malformed => Tri::MustReject,
         Member::NonTime(_) => Tri::MustReject,
     }
 }
@@ -700,8 +737,22 @@ fn step(cx: &mut Ctx, idx: usize, op: &Op, ob: &Obs) {
                 cx.clause("C09", "verifier_construct_no_panic", idx, false, "constructor returns", format!("{:?}", ob), &[]);
             }
         }
-        (Op::Deliver { msg, to, now_ns, ticks, twin: _, control: _ }, Obs::Deliver { main, twin, control }) => {
-            judge_deliver(cx, idx, *msg, *to, now_ns.0, ticks, main, twin.as_ref(), control.as_ref());
+        (Op::Deliver { msg, to, now_ns, ticks, twin: _, control: _, key }, Obs::Deliver { main, twin, control }) => {
+            judge_deliver(cx, idx, *msg, *to, now_ns.0, ticks, main, twin.as_ref(), control.as_ref(), *key);
+        }
+        (Op::Reconfigure { v, op }, Obs::Reconfigure { applied }) => {
+            cx.j.trace.push(format!("reconfigure:{}", applied));
+            if *applied {
+                cx.j.fire("ReconfigureLiveParser");
+                if let Some(spec) = cx.verifiers.get_mut(v) {
+                    match op {
+                        VOp::CheckClaim(c) => spec.expect.push(c.clone()),
+                        VOp::ValidateClaim(vs) => spec.validators.push(vs.clone()),
+                        VOp::SetFooter(f) => spec.footer = Some(f.clone()),
+                        VOp::SetAssertion(a) => spec.assertion = Some(a.clone()),
+                    }
+                }
+            }
         }
         (Op::KeyParse { n, text }, Obs::KeyParse { outcome }) => {
             cx.j.trace.push(format!("key_parse:{}:{}", n, outcome.verdict_class()));
@@ -959,12 +1010,18 @@ fn judge_deliver(
     main: &DeliverObs,
     twin: Option<&DeliverObs>,
     control: Option<&DeliverObs>,
+    key_override: Option<usize>,
 ) {
     cx.j.time(now);
-    let v = match cx.verifiers.get(&to) {
+    let mut v = match cx.verifiers.get(&to) {
         Some(v) => v.clone(),
         None => return,
     };
+    if let Some(k) = key_override {
+        // parse(token, key) takes the key per call: the same parser object, another key
+        v.key = k;
+        cx.j.fire("KeySwitchOnLiveParser");
+    }
     let m = match cx.msgs.get(&msg) {
         Some(m) => m.clone(),
         None => return,
@@ -1154,6 +1211,28 @@ fn judge_deliver(
         cx.clause("C16", "unauthenticated_never_reaches_default_validators", idx, main.reads.is_empty(), "no clock read", format!("{:?}", main.reads), &[]);
     }
 
+    if rel == Rel::Altered && !(key_match && footer_match && assert_match) {
+        // altered in transit AND presented under another key / footer / assertion (e.g. a forged
+        // re-split: footer segment rewritten, assertion changed to match): never acceptable either
+        let facts = [
+            ("proto", root.proto.name().to_string()),
+            ("layer", format!("{:?}", v.layer)),
+            ("faults", m.faults.join("+")),
+            ("token_footer", format!("{:?}", root.footer)),
+            ("expected_footer", format!("{:?}", v.footer)),
+            ("token_assertion", format!("{:?}", root.assertion)),
+            ("expected_assertion", format!("{:?}", v.assertion)),
+        ];
+        if !assert_match {
+            cx.clause("C06", "altered_token_under_other_assertion_rejected", idx, out.is_err(), "Err", out.short(), &facts);
+        }
+        if !footer_match {
+            cx.clause("C05", "altered_token_under_other_footer_rejected", idx, out.is_err(), "Err", out.short(), &facts);
+        }
+        if !key_match {
+            cx.clause("C04", "altered_token_under_other_key_rejected", idx, out.is_err(), "Err", out.short(), &facts);
+        }
+    }
     if rel != Rel::Verbatim {
         return;
     }
@@ -1201,10 +1280,11 @@ fn judge_deliver(
     let assert_other_form = v.proto.has_assertion() && v.assertion != root.assertion;
 
     // claims-level expectation
-    let (missing, differing, numeric_lat) = match (&json, is_parser_layer) {
+    let (missing, differing, lat_keys) = match (&json, is_parser_layer) {
         (Some(j), true) if json_obj => expectation_state(&v.expect, j),
-        _ => (vec![], vec![], false),
+        _ => (vec![], vec![], vec![]),
     };
+    let numeric_lat = !lat_keys.is_empty();
     // an expectation whose key also has a validator registered is shadowed by it in the pinned
     // implementation; the statement of C15 does not know that exception
     let validator_keys: BTreeSet<String> = v.validators.iter().filter(|x| x.via != Via::ExtendOnly).map(|x| x.claim.key().to_string()).collect();
@@ -1313,8 +1393,8 @@ fn judge_deliver(
                 let named = match out {
                     Outcome::Err { class: ErrClass::Claim, variant, args } => {
                         let k = args.first().cloned().unwrap_or_default();
-                        let fails = missing.contains(&k) || differing.contains(&k);
-                        let kind_ok = if differing.is_empty() { variant == "Missing" } else { true };
+                        let fails = missing.contains(&k) || differing.contains(&k) || lat_keys.contains(&k);
+                        let kind_ok = if differing.is_empty() && lat_keys.is_empty() { variant == "Missing" } else { true };
                         fails && kind_ok
                     }
                     _ => false,
@@ -1339,7 +1419,7 @@ fn judge_deliver(
         }
         // history independence
         let tri_s = format!("{:?}", time_tri);
-        let e = cx.history.entry((to, m.text.clone())).or_default();
+        let e = cx.history.entry((to, format!("{}|{}", m.text, serde_json::to_string(&v).unwrap_or_default()))).or_default();
         e.push((idx, tri_s, out.verdict_class().to_string()));
         if let Some(t) = twin {
             let same = t.outcome.verdict_class() == out.verdict_class();
@@ -1492,7 +1572,8 @@ fn judge_time(
             Member::Absent => "absent".to_string(),
             Member::Null => "null".to_string(),
             Member::Time { .. } => "timestamp".to_string(),
-            Member::Dubious => "dubious".to_string(),
+            Member::Dubious => "odd_separator".to_string(),
+            Member::Malformed => "malformed_timestamp".to_string(),
             Member::NonTime(v) => format!(
                 "non_timestamp:{}",
                 match v {
@@ -1536,7 +1617,7 @@ fn judge_time(
     // ---- C11
     match e {
         Tri::MustReject => {
-            let name = if matches!(exp_m, Member::NonTime(_)) { "non_timestamp_exp_rejected" } else { "expired_rejected" };
+            let name = if matches!(exp_m, Member::NonTime(_)) { "non_timestamp_exp_rejected" } else if matches!(exp_m, Member::Malformed) { "malformed_timestamp_exp_rejected" } else { "expired_rejected" };
             cx.clause("C11", name, idx, out.is_err(), "Err", out.short(), &f_e);
             cx.j.nontrivial |= cx.is("C11");
         }
@@ -1559,7 +1640,7 @@ fn judge_time(
     // ---- C12
     match n {
         Tri::MustReject => {
-            let name = if matches!(nbf_m, Member::NonTime(_)) { "non_timestamp_nbf_rejected" } else { "not_yet_valid_rejected" };
+            let name = if matches!(nbf_m, Member::NonTime(_)) { "non_timestamp_nbf_rejected" } else if matches!(nbf_m, Member::Malformed) { "malformed_timestamp_nbf_rejected" } else { "not_yet_valid_rejected" };
             cx.clause("C12", name, idx, out.is_err(), "Err", out.short(), &f_n);
             cx.j.nontrivial |= cx.is("C12");
         }
@@ -1619,7 +1700,18 @@ fn judge_validators(
         for c in &d.calls {
             let spec = v.validators.get(c.slot);
             let ok = match spec {
-                Some(s) => c.key == s.claim.key() && c.value == j.get(s.claim.key()).cloned().unwrap_or(Value::Null),
+                Some(s) => {
+                    let k = s.claim.key();
+                    let val_ok = match (&root.content, &c.value) {
+                        // default iat/nbf/exp are rendered by the library: compare as instants
+                        (Content::Claims(m), Value::String(got)) if matches!(m.get(k), Some(MVal::Instant(_))) => match m.get(k) {
+                            Some(MVal::Instant(t)) => civil::parse(got) == Some(*t),
+                            _ => false,
+                        },
+                        _ => c.value == j.get(k).cloned().unwrap_or(Value::Null),
+                    };
+                    c.key == k && val_ok
+                }
                 None => false,
             };
             cx.clause(
